@@ -71,6 +71,9 @@ func VerifC13Keys() {
 	}
 	chord := key.Modifiers
 	key.Modifiers |= locks
+	// the host delivers a key as a press, as an auto-repeat or as part of a bracketed paste:
+	// the child gets the same bytes
+	key.EventType = []vaxis.EventType{vaxis.EventPress, vaxis.EventRepeat, vaxis.EventPaste}[zzverif.Choose("eventType", 3)]
 	deckpam, decckm := zzverif.Bool("deckpam"), zzverif.Bool("decckm")
 	// through the widget's real entry point: Update consults the child's modes and writes
 	// the encoding to the pty
